@@ -105,4 +105,367 @@ theorem readChannelish_running (s d1 : Nat) (d' rest : List Nat) (m : Msg)
     all_le_any _ hd, hm]
   simp
 
+theorem specLen_chan (s n : Nat) (h : specLen s = some n) (hs : s < 0xf0) : n = 2 ∨ n = 3 := by
+  unfold specLen at h
+  repeat' split at h
+  all_goals first | (cases h; simp; done) | (exfalso; omega) | (cases h)
+
+theorem status_ne_f0 (m : Msg) (hv : m.Valid) (hns : ∀ d, m ≠ .sysex d) : m.status ≠ 0xF0 := by
+  cases m with
+  | chan3 k ch d1 d2 =>
+    simp only [Msg.Valid, Msg.valid, Bool.and_eq_true, decide_eq_true_eq] at hv
+    have hb := chan_or k.base (by cases k <;> simp [C3.base]) ch (by omega)
+    simp only [Msg.status, hb.1]; cases k <;> simp only [C3.base] <;> omega
+  | chan2 k ch d1 =>
+    simp only [Msg.Valid, Msg.valid, Bool.and_eq_true, decide_eq_true_eq] at hv
+    have hb := chan_or k.base (by cases k <;> simp [C2.base]) ch (by omega)
+    simp only [Msg.status, hb.1]; cases k <;> simp only [C2.base] <;> omega
+  | pitchwheel ch p =>
+    simp only [Msg.Valid, Msg.valid, Bool.and_eq_true, decide_eq_true_eq] at hv
+    have hb := chan_or 0xe0 (by simp) ch (by omega)
+    simp only [Msg.status, hb.1]; omega
+  | sysex d => exact absurd rfl (hns d)
+  | quarter_frame ft fv => simp [Msg.status]
+  | songpos p => simp [Msg.status]
+  | song_select s => simp [Msg.status]
+  | sys1 k => cases k <;> decide
+
+theorem encode_fixed_shape (m : Msg) (hv : m.Valid) (hns : ∀ d, m ≠ .sysex d) :
+    ∃ s d, encode m = s :: d ∧ s ≠ 0xF0 ∧ d.all (· ≤ 127) = true ∧ specLen s = some (d.length + 1) := by
+  rcases encode_good m hv with ⟨s, d, he, hs0, hd, hl⟩ | ⟨d, he, _⟩
+  · exact ⟨s, d, he, hs0, hd, hl⟩
+  · exfalso
+    obtain ⟨s, ds, he2, hs, _⟩ := C01_wellformed m hv
+    rw [he] at he2
+    simp only [cons_append, nil_append, cons.injEq] at he2
+    exact status_ne_f0 m hv hns (by rw [← hs, ← he2.1])
+
+/-- a channel or system-common message, with or without running status -/
+theorem readEvent_fixed (cs : Charset) (m : Msg) (hv : m.Valid) (hnr : m.isRealtime = false)
+    (hns : ∀ d, m ≠ .sysex d) (running last : Option Nat)
+    (hc : Coupled running last) (hr : RunOK running) (n : Nat) (bs : List Nat) (running' : Option Nat)
+    (hw : writeEvent cs running (.msg m) = .ok (bs, running')) (rest : List Nat) :
+    ∃ last', readEvent cs false last (encVlq n ++ bs ++ rest) = .ok (⟨.msg m, n⟩, rest, last') ∧
+      Coupled running' last' ∧ RunOK running' ∧ bs ≠ [] := by
+  have hdec := decode_encode_nats m hv
+  obtain ⟨s, d, he, hs0, hd, hl⟩ := encode_fixed_shape m hv hns
+  have hg := specLen_ge s _ hl
+  have hlt : s < 0xF8 := by
+    have : isRtTok (encode m) = false := by rw [isRtTok_encode m hv]; exact hnr
+    rw [he] at this
+    match d, this, hl with
+    | [], this, _ => simp [isRtTok] at this; omega
+    | _ :: _, _, hl =>
+      unfold specLen at hl
+      repeat' split at hl
+      all_goals first | omega | (simp at hl; done) | (simp at hl; omega)
+  have hwe : writeEvent cs running (.msg m) =
+      .ok (if some s = running then d else s :: d, if s < 0xf0 then some s else none) := by
+    cases m <;> first
+      | (exact absurd rfl (hns _))
+      | (simp only [writeEvent, he, headD_cons, tail_cons])
+  rw [hwe] at hw
+  simp only [Except.ok.injEq, Prod.mk.injEq] at hw
+  obtain ⟨rfl, rfl⟩ := hw
+  rw [he] at hdec
+  by_cases hrun : some s = running
+  · -- running status: the status byte is omitted
+    have hs := hr s hrun.symm
+    have hlast := hc s hrun.symm
+    rcases specLen_chan s _ hl hs.2 with h2 | h3
+    · -- one data byte
+      match d, h2, hd, hl, hdec with
+      | [d1], _, hd, hl, hdec =>
+        have hd1 : d1 < 0x80 := by simp at hd; omega
+        refine ⟨last, ?_, ?_, ?_, by simp [hrun]⟩
+        · unfold readEvent
+          rw [vlq_event]
+          simp only [if_pos hrun, bind, Except.bind, cons_append, nil_append, hd1, if_true, hlast]
+          have c1 : ¬ (s = 0xff) := by omega
+          have c2 : ¬ (s = 0xf0 ∨ s = 0xf7) := by omega
+          simp only [c1, c2, if_false]
+          have := readChannelish_running s d1 [] rest m hl hd hdec
+          simp only [nil_append] at this
+          rw [this]; rfl
+        · intro x hx; simp only [hs.2, if_true, Option.some.injEq] at hx; subst hx; exact hlast
+        · intro x hx; simp only [hs.2, if_true, Option.some.injEq] at hx; subst hx; exact hs
+    · match d, h3, hd, hl, hdec with
+      | [d1, d2], _, hd, hl, hdec =>
+        have hd1 : d1 < 0x80 := by simp at hd; omega
+        refine ⟨last, ?_, ?_, ?_, by simp [hrun]⟩
+        · unfold readEvent
+          rw [vlq_event]
+          simp only [if_pos hrun, bind, Except.bind, cons_append, nil_append, hd1, if_true, hlast]
+          have c1 : ¬ (s = 0xff) := by omega
+          have c2 : ¬ (s = 0xf0 ∨ s = 0xf7) := by omega
+          simp only [c1, c2, if_false]
+          have := readChannelish_running s d1 [d2] rest m hl hd hdec
+          simp only [singleton_append] at this
+          rw [this]; rfl
+        · intro x hx; simp only [hs.2, if_true, Option.some.injEq] at hx; subst hx; exact hlast
+        · intro x hx; simp only [hs.2, if_true, Option.some.injEq] at hx; subst hx; exact hs
+  · refine ⟨some s, ?_, ?_, ?_, by simp [hrun]⟩
+    · unfold readEvent
+      rw [vlq_event]
+      have c0 : ¬ (s < 0x80) := by omega
+      have c1 : ¬ (s = 0xff) := by omega
+      have c2 : ¬ (s = 0xf0 ∨ s = 0xf7) := by omega
+      simp only [if_neg hrun, bind, Except.bind, cons_append, c0, c1, c2, if_false]
+      rw [readChannelish_full s d rest m hl hd hdec]; rfl
+    · intro x hx; split at hx <;> simp_all
+    · intro x hx
+      split at hx
+      · rename_i h; simp only [Option.some.injEq] at hx; subst hx; exact ⟨hg.1, h⟩
+      · cases hx
+
+/-- **One event through writer and reader.** -/
+theorem readEvent_write (cs : Charset) (ev : FEv) (hst : StorableEv cs ev) (running last : Option Nat)
+    (hc : Coupled running last) (hr : RunOK running) (n : Nat) (bs : List Nat) (running' : Option Nat)
+    (hw : writeEvent cs running ev = .ok (bs, running')) (rest : List Nat) :
+    ∃ last', readEvent cs false last (encVlq n ++ bs ++ rest) = .ok (⟨ev, n⟩, rest, last') ∧
+      Coupled running' last' ∧ RunOK running' ∧ bs ≠ [] := by
+  cases ev with
+  | metaEv mm =>
+    obtain ⟨hcheck, hnorm, hcs, hlen⟩ := hst
+    simp only [writeEvent, bind, Except.bind] at hw
+    cases hb : metaBytes cs mm with
+    | error e => rw [hb] at hw; cases hw
+    | ok b =>
+      rw [hb] at hw; simp only [pure, Except.pure, Except.ok.injEq, Prod.mk.injEq] at hw
+      obtain ⟨rfl, rfl⟩ := hw
+      obtain ⟨p, hp, rfl⟩ := C09_form cs mm b hb
+      refine ⟨last, ?_, (fun s h => by cases h), (fun s h => by cases h), (by simp)⟩
+      unfold readEvent
+      rw [vlq_event]
+      simp only [bind, Except.bind, cons_append, nil_append]
+      have h1 : ¬ ((0xff : Nat) < 0x80) := by decide
+      simp only [h1, if_false, if_true]
+      have := readMeta_write cs hcs mm hcheck hnorm p rest hp (hlen p hp)
+      simp only [singleton_append, cons_append, nil_append, append_assoc] at this ⊢
+      rw [this]; rfl
+  | unknownMeta tb data =>
+    obtain ⟨hu, htb, hdata, hlen⟩ := hst
+    simp only [writeEvent, hdata, htb, decide_true, Bool.and_self, if_true, Except.ok.injEq, Prod.mk.injEq] at hw
+    obtain ⟨rfl, rfl⟩ := hw
+    refine ⟨last, ?_, (fun s h => by cases h), (fun s h => by cases h), (by simp)⟩
+    unfold readEvent
+    rw [vlq_event]
+    simp only [bind, Except.bind, cons_append, nil_append]
+    have h1 : ¬ ((0xff : Nat) < 0x80) := by decide
+    simp only [h1, if_false, if_true]
+    have := readMeta_unknown cs tb data rest hu hlen
+    simp only [singleton_append, cons_append, nil_append, append_assoc] at this ⊢
+    rw [this]; rfl
+  | msg m =>
+    obtain ⟨hv, hnr, hsx⟩ := hst
+    cases m with
+    | sysex d =>
+      simp only [writeEvent, Except.ok.injEq, Prod.mk.injEq] at hw
+      obtain ⟨rfl, rfl⟩ := hw
+      refine ⟨some 0xf0, ?_, (fun s h => by cases h), (fun s h => by cases h), (by simp)⟩
+      unfold readEvent
+      rw [vlq_event]
+      simp only [bind, Except.bind, cons_append, nil_append]
+      have h1 : ¬ ((0xf0 : Nat) < 0x80) := by decide
+      have h2 : ¬ ((0xf0 : Nat) = 0xff) := by decide
+      simp only [h1, h2, if_false, true_or, if_true]
+      have := readSysex_write d rest hv (hsx d rfl)
+      simp only [append_assoc, singleton_append, cons_append, nil_append] at this ⊢
+      rw [this]; rfl
+    | chan3 k ch d1 d2 => exact readEvent_fixed cs _ hv hnr (by intro d h; cases h) running last hc hr n bs running' hw rest
+    | chan2 k ch d1 => exact readEvent_fixed cs _ hv hnr (by intro d h; cases h) running last hc hr n bs running' hw rest
+    | pitchwheel ch p => exact readEvent_fixed cs _ hv hnr (by intro d h; cases h) running last hc hr n bs running' hw rest
+    | quarter_frame ft fv => exact readEvent_fixed cs _ hv hnr (by intro d h; cases h) running last hc hr n bs running' hw rest
+    | songpos p => exact readEvent_fixed cs _ hv hnr (by intro d h; cases h) running last hc hr n bs running' hw rest
+    | song_select sg => exact readEvent_fixed cs _ hv hnr (by intro d h; cases h) running last hc hr n bs running' hw rest
+    | sys1 k => exact readEvent_fixed cs _ hv hnr (by intro d h; cases h) running last hc hr n bs running' hw rest
+
+def TEvent.toL (e : TEvent) : LEvent := ⟨e.ev, match e.time with | .int n => n.toNat | _ => 0⟩
+
+/-- a storable timed event: storable payload, non-negative integer time -/
+def StorableT (cs : Charset) (e : TEvent) : Prop := StorableEv cs e.ev ∧ ∃ n : Nat, e.time = .int (n : Int)
+
+theorem storable_not_realtime (cs : Charset) (ev : FEv) (h : StorableEv cs ev) : ev.isRealtime = false := by
+  cases ev with
+  | msg m =>
+    obtain ⟨hv, hnr, _⟩ := h
+    cases m with
+    | sys1 k =>
+      cases k <;> simp [Msg.isRealtime, Msg.status, S1.status] at hnr <;> rfl
+    | _ => rfl
+  | metaEv m => rfl
+  | unknownMeta a b => rfl
+
+/-- **A whole track body through writer and reader**: the reader's event loop, which stops only
+    when exactly `size` bytes have been consumed at an event boundary, returns exactly the events
+    written. -/
+theorem readEvents_write (cs : Charset) (evs : List TEvent) : ∀ (running last : Option Nat)
+    (consumed fuel size : Nat) (body rest : List Nat),
+    (∀ e ∈ evs, StorableT cs e) → Coupled running last → RunOK running →
+    writeEvents cs running evs = .ok body → consumed + body.length = size → evs.length < fuel →
+    readEvents cs false size fuel consumed last (body ++ rest) = .ok (evs.map TEvent.toL, rest) := by
+  induction evs with
+  | nil =>
+    intro running last consumed fuel size body rest _ _ _ hw hsz hf
+    simp only [writeEvents, Except.ok.injEq] at hw; subst hw
+    obtain ⟨f, rfl⟩ : ∃ f, fuel = f + 1 := ⟨fuel - 1, by simp at hf; omega⟩
+    simp only [length_nil, Nat.add_zero] at hsz
+    simp [readEvents, hsz]
+  | cons e es ih =>
+    intro running last consumed fuel size body rest hst hc hr hw hsz hf
+    obtain ⟨hse, n, htime⟩ := hst e (by simp)
+    have hrest := fun x hx => hst x (mem_cons_of_mem _ hx)
+    simp only [writeEvents, htime] at hw
+    have hn0 : ¬ ((n : Int) < 0) := by omega
+    simp only [hn0, if_false, storable_not_realtime cs e.ev hse, Bool.false_eq_true, bind, Except.bind] at hw
+    cases hwe : writeEvent cs running e.ev with
+    | error er => rw [hwe] at hw; cases hw
+    | ok p =>
+      obtain ⟨b, running'⟩ := p
+      rw [hwe] at hw; simp only at hw
+      cases hws : writeEvents cs running' es with
+      | error er => rw [hws] at hw; cases hw
+      | ok R =>
+        rw [hws] at hw; simp only [pure, Except.pure, Except.ok.injEq, Int.toNat_natCast] at hw; subst hw
+        obtain ⟨last', hre, hc', hr', hbne⟩ := readEvent_write cs e.ev hse running last hc hr n b running' hwe (R ++ rest)
+        obtain ⟨f, rfl⟩ : ∃ f, fuel = f + 1 := ⟨fuel - 1, by simp at hf; omega⟩
+        have hne : consumed ≠ size := by
+          have : 0 < b.length := length_pos_iff.mpr hbne
+          simp only [length_append] at hsz; omega
+        have hshape : encVlq n ++ b ++ R ++ rest = encVlq n ++ b ++ (R ++ rest) := by simp
+        rw [readEvents, if_neg hne, hshape, hre]
+        simp only [bind, Except.bind]
+        have hcons : consumed + ((encVlq n ++ b ++ (R ++ rest)).length - (R ++ rest).length) + R.length = size := by
+          simp only [length_append] at hsz ⊢; omega
+        rw [ih running' last' _ f size R rest hrest hc' hr' hws hcons (by simp at hf; omega)]
+        simp [TEvent.toL, htime, pure, Except.pure]
+
+theorem be32_u32be (n : Nat) (h : n < 4294967296) : be32 (u32be n) = n := by
+  simp only [u32be, be32]; omega
+
+theorem u32be_length (n : Nat) : (u32be n).length = 4 := rfl
+
+theorem s16_i16be (v : Int) (bs : List Nat) (h : i16be v = .ok bs) : ∃ a b, bs = [a, b] ∧ s16 a b = v := by
+  unfold i16be at h
+  split at h
+  · rename_i hr
+    cases h
+    refine ⟨_, _, rfl, ?_⟩
+    simp only [s16]
+    by_cases hv : v < 0
+    · simp only [hv, if_true]
+      have e : (v + 65536).toNat / 256 * 256 + (v + 65536).toNat % 256 = (v + 65536).toNat := by omega
+      rw [e]
+      have : (v + 65536).toNat ≥ 32768 := by omega
+      simp only [this, if_true]; omega
+    · simp only [hv, if_false]
+      have e : v.toNat / 256 * 256 + v.toNat % 256 = v.toNat := by omega
+      rw [e]
+      have : ¬ (v.toNat ≥ 32768) := by omega
+      simp only [this, if_false]; omega
+  · cases h
+
+theorem writeEvents_length (cs : Charset) (evs : List TEvent) : ∀ (running : Option Nat) (body : List Nat),
+    writeEvents cs running evs = .ok body → evs.length ≤ body.length := by
+  induction evs with
+  | nil => intro _ body h; simp
+  | cons e es ih =>
+    intro running body h
+    simp only [writeEvents] at h
+    split at h
+    · rename_i n _
+      split at h
+      · cases h
+      · split at h
+        · cases h
+        · simp only [bind, Except.bind] at h
+          cases hwe : writeEvent cs running e.ev with
+          | error er => rw [hwe] at h; cases h
+          | ok p =>
+            rw [hwe] at h; simp only at h
+            cases hws : writeEvents cs p.2 es with
+            | error er => rw [hws] at h; cases h
+            | ok R =>
+              rw [hws] at h; simp only [pure, Except.pure, Except.ok.injEq] at h; subst h
+              have := ih p.2 R hws
+              have h1 : 0 < (encVlq n.toNat).length := by
+                have := encVlq_shape n.toNat
+                cases hx : encVlq n.toNat with
+                | nil => rw [hx] at this; exact this.elim
+                | cons a b => simp
+              simp only [length_append, length_cons]; omega
+    · cases h
+
+/-- the end_of_track event appended by the writer is storable -/
+theorem eot_storable (cs : Charset) (hcs : cs ≠ .utf8) (n : Nat) : StorableT cs (eotEvent (.int (n : Int))) := by
+  refine ⟨⟨by decide, by decide, hcs, ?_⟩, n, rfl⟩
+  intro p hp; simp [metaPayload] at hp; subst hp; simp [maxMessageLength]
+
+theorem fixEot_storable (cs : Charset) (hcs : cs ≠ .utf8) (tr : List TEvent) : ∀ (acc : Nat),
+    (∀ e ∈ tr, StorableT cs e) →
+    ∃ fixed, fixEotEvents (.int (acc : Int)) tr = .ok fixed ∧ ∀ e ∈ fixed, StorableT cs e := by
+  induction tr with
+  | nil => intro acc _; exact ⟨[eotEvent (.int acc)], rfl, by intro e he; simp at he; subst he; exact eot_storable cs hcs acc⟩
+  | cons x xs ih =>
+    intro acc hst
+    obtain ⟨hsx, n, hn⟩ := hst x (by simp)
+    have hrest := fun e he => hst e (mem_cons_of_mem _ he)
+    simp only [fixEotEvents]
+    by_cases hx : x.ev.isEot = true
+    · rw [if_pos hx, hn]
+      simp only [pyAdd, bind, Except.bind]
+      have : ((acc : Int) + (n : Int)) = ((acc + n : Nat) : Int) := by simp
+      rw [this]; exact ih (acc + n) hrest
+    · rw [if_neg hx]
+      obtain ⟨r, hr, hrs⟩ := ih 0 hrest
+      by_cases ht : pyTruthy (.int (acc : Int)) = true
+      · rw [if_pos ht, hn]
+        simp only [pyAdd, bind, Except.bind]
+        have h0 : fixEotEvents (.int 0) xs = .ok r := by simpa using hr
+        rw [h0]
+        refine ⟨_, rfl, ?_⟩
+        intro e he
+        rcases mem_cons.mp he with rfl | he
+        · exact ⟨hsx, acc + n, by simp⟩
+        · exact hrs e he
+      · rw [if_neg ht]
+        have h0 : fixEotEvents (.int 0) xs = .ok r := by simpa using hr
+        simp only [bind, Except.bind, h0]
+        refine ⟨_, rfl, ?_⟩
+        intro e he
+        rcases mem_cons.mp he with rfl | he
+        · exact ⟨hsx, n, hn⟩
+        · exact hrs e he
+
+/-- **One track chunk through writer and reader.** -/
+theorem readTrack_write (cs : Charset) (hcs : cs ≠ .utf8) (tr : List TEvent) (hst : ∀ e ∈ tr, StorableT cs e)
+    (bytes rest : List Nat) (hw : writeTrack cs tr = .ok bytes) (hfit : bytes.length < 4294967296) :
+    ∃ fixed, fixEotEvents (.int 0) tr = .ok fixed ∧
+      readTrack cs false (bytes ++ rest) = .ok (fixed.map TEvent.toL, rest) := by
+  obtain ⟨fixed, hfix, hfs⟩ := fixEot_storable cs hcs tr 0 hst
+  have hfix0 : fixEotEvents (.int 0) tr = .ok fixed := by simpa using hfix
+  refine ⟨fixed, hfix0, ?_⟩
+  have hall : tr.all timeOk = true := by
+    apply all_eq_true.mpr; intro e he
+    obtain ⟨_, n, hn⟩ := hst e he
+    simp [timeOk, hn]
+  simp only [writeTrack, hall, Bool.not_true, Bool.false_eq_true, if_false, bind, Except.bind, hfix0] at hw
+  cases hb : writeEvents cs none fixed with
+  | error e => rw [hb] at hw; simp [pure, Except.pure] at hw
+  | ok body =>
+    rw [hb] at hw; simp only [pure, Except.pure, Except.ok.injEq] at hw; subst hw
+    have hlen : body.length < 4294967296 := by simp only [length_append] at hfit; omega
+    unfold readTrack
+    have h8 : ¬ ((mtrk ++ u32be body.length ++ body ++ rest).length < 8) := by
+      simp [mtrk, u32be]
+    have ht : (mtrk ++ u32be body.length ++ body ++ rest).take 4 = mtrk := by simp [mtrk, u32be]
+    have hd4 : ((mtrk ++ u32be body.length ++ body ++ rest).drop 4).take 4 = u32be body.length := by simp [mtrk, u32be]
+    have hd8 : (mtrk ++ u32be body.length ++ body ++ rest).drop 8 = body ++ rest := by simp [mtrk, u32be]
+    rw [if_neg h8, ht]
+    simp only [ne_eq, not_true_eq_false, if_false, hd4, hd8, be32_u32be _ hlen]
+    exact readEvents_write cs fixed none none 0 _ body.length body rest hfs (fun s h => by cases h)
+      (fun s h => by cases h) hb (by simp) (by
+        have := writeEvents_length cs fixed none body hb
+        simp only [length_append]; omega)
+
 end Mido
